@@ -9,7 +9,8 @@ Inductive ktable := KT (num : N) (es : list kentry).
 Inductive lsmcase :=
 | KGet (cid : N) (mem frozen : list kentry) (aux : list ktable) (lvls : list (list ktable))
        (queries : list (string * N * option string))
-| KCompact (cid : N) (minSeq : N) (deeper : list (list ktable)) (inputs outputs : list ktable)
+| KCompact (cid : N) (minSeq : N) (pre : list (list ktable)) (srclevel : N) (deleted : list N)
+           (outputs : list ktable)
 | KWf (cid : N) (lvls : list (list ktable)).
 
 Definition to_entry (e : kentry) : entry :=
@@ -42,12 +43,21 @@ Definition run_case (cs : lsmcase) : bool :=
       let st := {| st_mem := map to_entry mem; st_frozen := map to_entry frozen;
                    st_aux := map to_table aux; st_levels := to_levels lvls |} in
       forallb (fun q => match q with (k, s, obs) => opt_eqb (api_of (lsm_get c kp st (unhex k) s)) obs end) qs
-  | KCompact cid minSeq deeper inputs outputs =>
+  | KCompact cid minSeq pre srclevel deleted outputs =>
       let c := cmp_of_id cid in
+      let lvls := to_levels pre in
+      let all := List.concat lvls in
+      let ins := filter (is_input deleted) all in
+      let others := filter (fun t => negb (is_input deleted t)) all in
+      let I := level_entries ins in
+      let O := level_entries others in
+      let deeper := skipn (N.to_nat srclevel + 2) lvls in
       let outs := map (fun t => t_entries (to_table t)) outputs in
-      entries_eqb (List.concat outs) (compact_entries c kp minSeq (to_levels deeper) (map to_table inputs))
+      wf_versionb c kp lvls
+      && compaction_cert c kp minSeq deeper I O outs
+      && entries_eqb (List.concat outs) (drop_run c kp minSeq (is_base c deeper) None (isort c I))
       && cuts_ok c outs
-  | KWf cid lvls => wf_versionb (cmp_of_id cid) (to_levels lvls)
+  | KWf cid lvls => wf_versionb (cmp_of_id cid) kp (to_levels lvls)
   end.
 
 Fixpoint mism_from {A} (f : A -> bool) (i : N) (l : list A) : list N :=
